@@ -54,13 +54,13 @@ def run(ctx, col, tier):
                         "touching non-adjacent parts)"]
     col.assumptions += ["premise of the property: each compartment is at least as long as both "
                         "end radii, hence sphere(parent) & sphere(child) lies inside their frustum"]
-    gate_and_terms(ctx, col)
-    entry(ctx, col)
+    col.guard(gate_and_terms, ctx, col)
+    col.guard(entry, ctx, col)
     # primitives (shared with C13)
-    c13.forms(ctx, col)
-    c13.lens_cells(ctx, col)
-    c13.concentric(ctx, col)
-    ladder(ctx, col)
+    col.guard(c13.forms, ctx, col)
+    col.guard(c13.lens_cells, ctx, col)
+    col.guard(c13.concentric, ctx, col)
+    col.guard(ladder, ctx, col)
 
 
 def c13_rule(rid):
